@@ -66,8 +66,10 @@ Section ASSOC.
   Definition kill (p : K -> aval -> bool) (l : list (K * aval)) : list (K * aval) :=
     map (fun e => if p (fst e) (snd e) then e else (fst e, ATop)) l.
 
+  (** for every key bound in [b]: (value in a) ⊑ (value in b); keys not bound in [b] are Top there.
+      Values are compared through [look], so shadowed duplicates in [b] are harmless. *)
   Definition le_assoc (a b : list (K * aval)) : bool :=
-    forallb (fun e => le_val (look a (fst e)) (snd e)) b.
+    forallb (fun e => le_val (look a (fst e)) (look b (fst e))) b.
 End ASSOC.
 
 Definition skey : Type := nat * Z.
